@@ -98,7 +98,7 @@ class BaseResponse:
         self._ranges = []
         self.__done = False
         self._start = 0
-        self._end = 0
+        self._end = None
         self._content_length = 0
         self._units = None
 
@@ -274,12 +274,14 @@ class BaseResponse:
                         self._start = self._content_length - self._end
                         self._end = None
                     content_range.start = self._start
-                    if self._end and self._content_length:
+                    if self._end is not None and self._content_length:
                         self._end = min(self._content_length-1, self._end)
                         content_range.end = self._end
-                        self._content_length = self._end - self._start + 1
+                        self._content_length = max(
+                            0, self._end - self._start + 1)
                     elif self._content_length:
-                        self._content_length -= self._start
+                        self._content_length = max(
+                            0, self._content_length - self._start)
                     if self._content_length:
                         self.status_code = HTTP_PARTIAL_CONTENT
                         self.__headers.add("Content-Range", str(content_range))
@@ -369,7 +371,7 @@ class Response(BaseResponse):
 
     def __end_of_response__(self):
         self.__buffer.seek(self._start)
-        if self._end:
+        if self._end is not None:
             return IBytesIO(self.__buffer.read(self._end - self._start + 1))
         return self.__buffer
 
@@ -482,9 +484,9 @@ class FileObjResponse(BaseResponse):
                          headers=headers,
                          status_code=status_code)
         self.__file = file_obj
+        self.__pos = 0
         if file_obj.seekable():
             self.__pos = file_obj.tell()
-            self._start = self.__pos
         try:
             self._content_length = \
                     fstat(file_obj.fileno()).st_size - self.__pos
@@ -517,8 +519,8 @@ class FileObjResponse(BaseResponse):
         for returning right value to wsgi server.
         """
         if self.__file.seekable():
-            self.__file.seek(self._start)
-            if self._end:
+            self.__file.seek(self.__pos + self._start)
+            if self._end is not None:
                 return IBytesIO(self.__file.read(self._end - self._start + 1))
         return self.__file
 
@@ -586,13 +588,13 @@ class GeneratorResponse(BaseResponse):
             start = 0
             if pos < self._start:
                 start = self._start - pos
-            if self._end and (pos+length) > self._end:
+            if self._end is not None and (pos+length) > self._end:
                 end = (self._end + 1) - pos
             pos += length
             yield data[start:end]
 
             # is enough
-            if self._end and pos > self._end:
+            if self._end is not None and pos > self._end:
                 return b''
         return b''
 
